@@ -376,6 +376,51 @@ func c02Body(d c02Desc, tier string) func() {
 					conn.Close()
 				}
 			}
+		case "emitfail":
+			// a Send that fails (context already ended; write stalled so that no byte can leave, or free to go)
+			// followed by a Send that succeeds: the failed call contributes at most one frame - its own - and the
+			// second exactly one
+			peer, mine := vnet.Pipe("uf")
+			if d.Seq[0] == "stalled" {
+				mine.Cap = -1
+			}
+			conn := varlink.VerifNewConnection(mine)
+			dead := vnet.NewCtx("dead")
+			if d.Seq[1] == "deadline" {
+				dead = vnet.NewCtxDeadline("dead")
+				dead.Expire()
+			} else {
+				dead.Cancel()
+			}
+			_, errA := conn.Send(dead, "t.f.A", map[string]string{"a": strings.Repeat("A", 40)}, varlink.Oneway)
+			mine.Cap = 0
+			_, errB := conn.Send(live, "t.f.B", map[string]string{"b": "B"}, varlink.Oneway)
+			st.cases++
+			if errB != nil {
+				fail("Send under a live context after a failed Send: %v", errB)
+			}
+			wire := peer.Received()
+			if _, p := streamOK(wire); p != "" {
+				fail("after a failed Send (%v) and a successful one the wire holds %q: %s", errA, short(string(wire)), p)
+			}
+			fr, _ := frames(wire)
+			nA, nB := 0, 0
+			for _, f := range fr {
+				switch {
+				case strings.Contains(f, `"t.f.A"`):
+					nA++
+				case strings.Contains(f, `"t.f.B"`):
+					nB++
+				}
+			}
+			if nB != 1 || nA > 1 || nA+nB != len(fr) || (d.Seq[0] == "stalled" && nA != 0) || (errA == nil && nA != 1) {
+				fail("after Send A (result %v, write %s) and Send B the wire holds %d x A and %d x B in %d frames: %q", errA, d.Seq[0], nA, nB, len(fr), short(string(wire)))
+			}
+			for _, seg := range peer.Log {
+				if n := strings.Count(string(seg), "\x00"); n != 1 {
+					fail("one write carried %d frames: %q", n, short(string(seg)))
+				}
+			}
 		case "emit2s", "emit2c":
 			// two connections of one process emit at the same time: the first message is stuck in a blocked
 			// write (the peer does not read) while the second one is encoded and sent; then the first drains
@@ -650,6 +695,12 @@ func scenariosC02(tier string) []Scen {
 	names, _ := c02Values(tier)
 	for i := 0; i < len(names); i += 4 {
 		add(c02Desc{Kind: "emit", Values: names[i:min(i+4, len(names))]})
+	}
+	for _, stall := range []string{"stalled", "free"} {
+		for _, cause := range []string{"cancel", "deadline"} {
+			d := c02Desc{Kind: "emitfail", Seq: []string{stall, cause}}
+			out = append(out, Scen{Desc: d, Bound: 2, Body: c02Body(d, tier), Check: c02Check, Obs: c02Obs, Cases: c02Cases})
+		}
 	}
 	for _, kind := range []string{"emit2s", "emit2c"} {
 		for _, a := range []string{"10", "600", "5000", "70000"} {
